@@ -7,6 +7,7 @@ git -C /repo worktree add -q --detach $WT HEAD || exit 3
 trap "git -C /repo worktree remove --force $WT" EXIT
 cd $WT
 export JAM_FUZZ=1 GOFLAGS=-mod=mod GOPROXY=off GOTOOLCHAIN=auto
+[ -x /tmp/seedkit/mkoverlay.sh ] || /verif/tools/seedkit/install.sh >/dev/null
 OV=$(/tmp/seedkit/mkoverlay.sh $WT erasure)
 # place each demonstration file into the package directory whose package clause matches
 PKGS=""
